@@ -123,12 +123,29 @@ class Handles:
         import ast
         bases = set(names) | {"Exception", "BaseException"}
         sites = [(e.file, e.line)] + [(f, l) for f, l, _ in reversed(e.stack)]
+        # disarm = request.alarm.cancel ... disarm(): the AttributeError of a None handle is raised where the bound method is fetched
+        nd = getattr(e, "node", None)
+        if isinstance(nd, ast.Call) and isinstance(nd.func, ast.Name):
+            fn = self.a.prog.funcs.get(e.func)
+            if fn is not None:
+                fetch = [x for x in ast.walk(fn.node) if isinstance(x, ast.Assign) and len(x.targets) == 1 and isinstance(x.targets[0], ast.Name)
+                         and x.targets[0].id == nd.func.id]
+                if len(fetch) == 1 and isinstance(fetch[0].value, ast.Attribute) and fetch[0].value.attr in ("cancel", "stop"):
+                    sites = [(e.file, fetch[0].lineno)]
         for f, l in sites:
             mod = next((m for m in self.a.prog.modules.values() if m.path == f or m.path.endswith("/" + f) or f.endswith("/" + m.path)), None)
             if mod is None:
                 continue
             best = None
             for t in ast.walk(mod.tree):
+                if isinstance(t, ast.With) and t.body and t.body[0].lineno <= l <= (t.body[-1].end_lineno or t.body[-1].lineno) \
+                        and len(t.items) == 1 and isinstance(t.items[0].context_expr, ast.Call) \
+                        and (getattr(t.items[0].context_expr.func, "id", None) == "suppress" or getattr(t.items[0].context_expr.func, "attr", None) == "suppress"):
+                    # with suppress(E): the same as try/except E: pass
+                    nm = {x.id if isinstance(x, ast.Name) else (x.attr if isinstance(x, ast.Attribute) else None) for x in t.items[0].context_expr.args}
+                    if nm & bases and (best is None or t.lineno >= best[0].lineno):
+                        best = (t, l)
+                    continue
                 if not isinstance(t, ast.Try) or not t.body or not (t.body[0].lineno <= l <= (t.body[-1].end_lineno or t.body[-1].lineno)):
                     continue
                 for h in t.handlers:
